@@ -17,6 +17,18 @@ def single_feature_world(wj, i):
     return w
 
 
+def strip_models(x):
+    """remove every temperature / composition / grains model list of a feature (segments and sections included)"""
+    if isinstance(x, dict):
+        for k in ("temperature models", "composition models", "grains models"):
+            x.pop(k, None)
+        for v in x.values():
+            strip_models(v)
+    elif isinstance(x, list):
+        for v in x:
+            strip_models(v)
+
+
 def shallow(rng, wj, sph, pos):
     """same surface position, a depth inside the common shallow range"""
     from wbgen import cart_point
@@ -129,12 +141,12 @@ def run(chk):
             if covering:
                 j = covering[-1]
                 wc = copy.deepcopy(wj)
-                for k in ("temperature models", "composition models", "grains models"):
-                    wc["features"][j].pop(k, None)
+                strip_models(wc["features"][j])
                 wd = copy.deepcopy(wj)
                 del wd["features"][j]
                 sc, sd = cs2.add_world(wc, model=False), cs2.add_world(wd, model=False)
-                plan2.append(("same-tcg", cs2.p3(sc, pos, d, ALL), cs2.p3(sd, pos, d, ALL),
+                line = wj["features"][j]["model"] in ("subducting plate", "fault")
+                plan2.append(("same-tcg-line" if line else "same-tcg", cs2.p3(sc, pos, d, ALL), cs2.p3(sd, pos, d, ALL),
                               "a covering feature without temperature/composition/grains models changes those values"))
     impl2, _ = cs2.run(model=False)
     chk.evaluations += len(impl2)
@@ -148,9 +160,17 @@ def run(chk):
             continue
         a, b = list(a), list(b)
         a[tag_o] = b[tag_o] = 0.0          # tag indices depend on the file's tag table
-        if kind == "same-tcg":
+        if kind.startswith("same-tcg"):
             a[vel_o:vel_o + 3] = b[vel_o:vel_o + 3] = [0.0, 0.0, 0.0]
+        if kind == "same-tcg-line":
+            # known finding D4: a slab/fault without grains models turns zero matrices into the identity
+            g0, g1 = offs[5], offs[7]
+            if a[g0:g1] != b[g0:g1]:
+                if chk.known("D4", "slab/fault without grains models changes the grains"):
+                    a[g0:g1] = b[g0:g1]
         if any(x != y and not (x != x and y != y) for x, y in zip(a, b)):
+            cs2.meta[ib]["compared_with"] = cs2.describe(ia) if kind != "same" else cs.describe(ia)
+            cs2.meta[ib]["values"] = [a, b]
             viol.append((what, ib, cs2))
     for pl in plan[:3]:
         chk.sample({"query": cs.probe[pl["full"][0]], "answer": impl[pl["full"][0]][:160]})
